@@ -3,6 +3,7 @@ import json
 import os
 import re
 import subprocess
+import sys
 import time
 
 import peglib as L
@@ -58,8 +59,9 @@ class Ctx:
         for m in modules:
             path = os.path.join(lean, *m.split('.')) + '.lean'
             self.checker_cmds.append('cd lean && lake build %s && lake env lean %s' % (m, os.path.relpath(path, lean)))
+            rel = os.path.relpath(path, lean)
             try:
-                self.T().lake_build([m])
+                out = self.T().lake_build([m])
             except L.LeanBuildError as e:
                 errs = [l for l in e.output.splitlines() if 'error' in l.lower()][:12]
                 self.proof_errors.append({'module': m, 'errors': errs})
@@ -67,12 +69,22 @@ class Ctx:
                                  'what': 'proof obligation no longer checks: %s' % ('; '.join(errs)[:600]),
                                  'replay': {'module': m, 'output': e.output[-6000:]}})
                 continue
-            p = subprocess.run(['lake', 'env', 'lean', os.path.relpath(path, lean)], cwd=lean, capture_output=True, text=True)
-            out = p.stdout + p.stderr
-            if p.returncode != 0:
-                self.dis.append({'kind': 'proof', 'tie': 'lean %s' % m, 'what': 'elaboration failed: ' + out[-600:],
-                                 'replay': {'module': m, 'output': out[-6000:]}})
-                continue
+            # lake replays the messages of an up-to-date module, so the `#print axioms` lines are in `out`;
+            # the thorough tier re-elaborates the file and runs the independent checker as well
+            mine = [l for l in out.splitlines() if rel in l]
+            if self.tier == 'thorough' or not any('axioms' in l for l in mine):
+                p = subprocess.run(['lake', 'env', 'lean', rel], cwd=lean, capture_output=True, text=True)
+                if p.returncode != 0:
+                    self.dis.append({'kind': 'proof', 'tie': 'lean %s' % m, 'what': 'elaboration failed: ' + (p.stdout + p.stderr)[-600:],
+                                     'replay': {'module': m, 'output': (p.stdout + p.stderr)[-6000:]}})
+                    continue
+                mine = (p.stdout + p.stderr).splitlines()
+            if self.tier == 'thorough':
+                p = subprocess.run(['lake', 'env', 'leanchecker', m], cwd=lean, capture_output=True, text=True)
+                self.coverage.setdefault('leanchecker', {})[m] = 'ok' if p.returncode == 0 else (p.stdout + p.stderr)[-300:]
+                if p.returncode != 0:
+                    self.dis.append({'kind': 'proof', 'tie': 'leanchecker %s' % m, 'what': (p.stdout + p.stderr)[-400:], 'replay': {'module': m}})
+            out = '\n'.join(mine)
             for mm in re.finditer(r"'([^']+)' depends on axioms: \[([^\]]*)\]", out):
                 axs = [x.strip() for x in mm.group(2).split(',') if x.strip()]
                 self.obligations.append((mm.group(1), axs))
@@ -596,7 +608,90 @@ def c17(ctx):
     LC.c17(ctx)
 
 
-PROPS = {'C01': c01, 'C08': c08, 'C09': c09, 'C12': c12, 'C13': c13, 'C14': c14, 'C17': c17, 'C16': c16, 'C18': c18, 'C02': c02, 'C03': c03, 'C04': c04, 'C05': c05, 'C06': c06, 'C07': c07, 'C11': c11}
+def c15(ctx):
+    ctx.proofs(['PegVerif.Props.C15'])
+    ctx.T()
+    p = subprocess.run([sys.executable, os.path.join(VERIF, 'bin', 'tdiag.py'), '--tier', 'quick' if ctx.tier == 'quick' else 'thorough', '--seed', str(ctx.seed)],
+                       capture_output=True, text=True, env=L.GOENV, timeout=7200)
+    out = p.stdout
+    i = out.rfind('\n{')
+    summary = {}
+    try:
+        summary = json.loads(out[i + 1:] if i >= 0 else out)
+    except ValueError:
+        pass
+    counts = summary.get('counts', summary)
+    n = int(summary.get('grammars', counts.get('grammars', 0)) or 0)
+    if p.returncode == 1:
+        head = out[:i] if i >= 0 else out
+        ctx.add('spec', 'T-diag', 'diagnostics of the real generator differ from the model / the independent specification: ' + head[-900:],
+                {'output': head[-6000:], 'rerun': 'python3 bin/tdiag.py --tier %s --seed %d' % (ctx.tier, ctx.seed)})
+    elif p.returncode != 0:
+        raise RuntimeError('tdiag failed: ' + (p.stderr or out)[-1500:])
+    if (counts.get('pegtext_not_reported') or counts.get('pegtext') or 0) or 'pegtext' in json.dumps(summary.get('examples', {})):
+        ctx.add('spec', 'T-diag/pegtext', 'an undefined reference named PegText is not reported', {'pegtext_exception': True, 'example': (summary.get('examples') or {}).get('pegtext')})
+    ctx.coverage.update({
+        'evaluations': n or 1, 'distinct_nontrivial': int(counts.get('kind_leftrec', 0)) + int(counts.get('kind_undefined', 0)) + int(counts.get('kind_unused', 0)) + int(counts.get('kind_dup', 0)),
+        'exhaustive': True,
+        'rule': 'ill-formed and borderline grammars: families (direct/indirect/nullable-prefix left recursion, recursion under ? * + & ! <>, later alternatives, guarded recursion that must stay silent, '
+                'unreachable rules and cycles, names used only from unreachable rules, undefined names, duplicates, empty bodies, actions and captures), seeded random ones, and the exhaustive enumeration of '
+                'small two-rule grammars; per grammar the ordered warning lines, -strict failure and duplicate error of the real generator are compared with the Lean model, and the warned name sets with an '
+                'independent evaluation of Reachable / Undefined / LeftRec; non-trivial = grammars with at least one diagnostic',
+        'samples': [summary.get('examples')], 'input_distribution': counts,
+    })
+
+
+@matcher('F-C15-1')
+def _m_c15_1(d, k):
+    return d['tie'] == 'T-diag/pegtext' and (d.get('replay') or {}).get('pegtext_exception') is True
+
+
+def c10(ctx):
+    # regenerate G_peg from the current peg.peg (T-facts) and re-check the theorems against it
+    T = ctx.T()
+    p = subprocess.run([sys.executable, os.path.join(VERIF, 'bin', 'genpeggrammar.py')], capture_output=True, text=True, env=L.GOENV)
+    if p.returncode != 0:
+        raise RuntimeError('genpeggrammar failed: ' + (p.stderr or p.stdout)[-1500:])
+    ctx.proofs(['PegVerif.Props.C10Escapes', 'PegVerif.Props.C10'])
+    T.lake_build(['pegmodel'])
+    js = os.path.join(L.scratch('tfront-'), 'tfront.json')
+    p = subprocess.run([sys.executable, os.path.join(VERIF, 'bin', 'tfront.py'), '--tier', ctx.tier, '--seed', str(ctx.seed), '--json', js, '--no-regen'],
+                       capture_output=True, text=True, env=L.GOENV, timeout=7200)
+    if not os.path.exists(js):
+        raise RuntimeError('tfront failed: ' + (p.stderr or p.stdout)[-1500:])
+    r = json.load(open(js))
+    for m in (r.get('mismatch_list') or [])[:10]:
+        kind = 'spec' if 'spec' in json.dumps(m).lower() else 'model'
+        ctx.add(kind, 'T-front', 'front end differs from %s: %s' % ('the documented meaning (denote)' if kind == 'spec' else 'the model front end', json.dumps(m)[:400]), m)
+    for f in r.get('finding_list') or []:
+        ctx.add('spec', 'T-front/probe', 'probe %s: %s (documented: %s, real: %s)' % (f.get('id'), f.get('note'), str(f.get('documented'))[:80], str(f.get('real'))[:80]),
+                {'probe': f.get('id'), 'text': f.get('text'), 'documented': f.get('documented'), 'real': f.get('real')})
+    c = r.get('counts', {})
+    ctx.coverage.update({
+        'evaluations': int(c.get('well', 0)) + int(c.get('malformed', 0)) + int(c.get('probes', 0)),
+        'distinct_nontrivial': int(c.get('well', 0)),
+        'rule': 'abstract grammars rendered in every spelling variant (quote style, every escape spelling in every character position, both arrows, # and // comments, spacing, CR/LF/CRLF, redundant parentheses, '
+                'imports single/aliased/grouped, header comments) compared REAL vs denote (spec) and REAL vs the model front end (PEG semantics of the regenerated peg.peg + builder model); malformed stream '
+                '(truncate/delete/insert/swap/random bytes/hand-written shapes): real must reject or agree with the model, never panic; non-trivial = well-formed spelled texts',
+        'samples': [(r.get('probe_results') or [{}])[0].get('text')], 'input_distribution': r.get('distribution'), 'counts': c,
+    })
+
+
+def _probe_matcher(prefixes):
+    def fn(d, k):
+        pr = (d.get('replay') or {}).get('probe') or ''
+        return d['tie'] == 'T-front/probe' and any(pr.startswith(x) for x in prefixes)
+    return fn
+
+
+KNOWN_MATCHERS['F-C10-1'] = _probe_matcher(['ci-nonascii', 'ci-escaped-letter'])
+KNOWN_MATCHERS['F-C10-3'] = _probe_matcher(['hex-no-codepoint'])
+KNOWN_MATCHERS['F-C10-4'] = _probe_matcher(['final-comment-no-newline'])
+KNOWN_MATCHERS['F-C10-5'] = _probe_matcher(['action-brace-in-string'])
+KNOWN_MATCHERS['F-C10-6'] = _probe_matcher(['class-trailing-dash'])
+
+
+PROPS = {'C01': c01, 'C08': c08, 'C10': c10, 'C15': c15, 'C09': c09, 'C12': c12, 'C13': c13, 'C14': c14, 'C17': c17, 'C16': c16, 'C18': c18, 'C02': c02, 'C03': c03, 'C04': c04, 'C05': c05, 'C06': c06, 'C07': c07, 'C11': c11}
 
 
 def replay(ctx, path):
